@@ -98,7 +98,7 @@ def replay_co(model, side="below"):
         # bubble point (where B_g and dB_o/dR_s are of the same size) and lean oils at low pressure
         for T_, api, gg, rsi in ((150.0, 35.0, 0.8, 2400.0), (100.0, 45.0, 0.9, 2500.0), (250.0, 30.0, 0.7, 1700.0), (200.0, 35.0, 0.8, 650.0), (120.0, 20.0, 1.1, 60.0)):
             pb2 = float(oil.pressure_bubblepoint_Standing(T_, api, gg, rsi))
-            for f in (0.98, 0.9, 0.6, 0.2):
+            for f in (1 - 2e-6, 1 - 8e-6, 0.98, 0.9, 0.6, 0.2):       # just below the bubble point first: a tolerance window around it
                 a = (T_, f * pb2, api, gg, rsi)
                 got2 = float(oil.oil_compressibility_Standing(*a, m["tpc"], m["ppc"], m["tstd"], m["pstd"]))
                 bg = gas.b_factor_DAK(a[0], a[1], m["tpc"], m["ppc"], m["tstd"], m["pstd"])
